@@ -78,9 +78,60 @@ def _f(x):
     return float(x)
 
 
+class Noisy(float):
+    """A float whose last bits depend on an order the language leaves open (the sum or product of
+    three or more set elements, at least one of them inexact): equal-looking values are not equal
+    in any way a verdict may rest on. The mark survives arithmetic."""
+    __slots__ = ()
+
+    def _w(self, r):
+        return Noisy(r) if isinstance(r, float) else r
+
+    def __add__(self, o):
+        return self._w(float(self) + float(o))
+    __radd__ = __add__
+
+    def __sub__(self, o):
+        return self._w(float(self) - float(o))
+
+    def __rsub__(self, o):
+        return self._w(float(o) - float(self))
+
+    def __mul__(self, o):
+        return self._w(float(self) * float(o))
+    __rmul__ = __mul__
+
+    def __truediv__(self, o):
+        return self._w(float(self) / float(o))
+
+    def __rtruediv__(self, o):
+        return self._w(float(o) / float(self))
+
+    def __pow__(self, o, mod=None):
+        return self._w(float(self) ** (o if isinstance(o, int) else float(o)))
+
+    def __rpow__(self, o, mod=None):
+        return self._w(float(o) ** float(self))
+
+    def __neg__(self):
+        return Noisy(-float(self))
+
+    def __abs__(self):
+        return Noisy(abs(float(self)))
+
+
+def keep_noise(src, r):
+    return Noisy(r) if isinstance(src, Noisy) and isinstance(r, float) else r
+
+
 def num_eq(a, b):
     if isinstance(a, Fraction) and isinstance(b, Fraction):
         return a == b
+    if isinstance(a, Noisy) or isinstance(b, Noisy):
+        fa, fb = _f(a), _f(b)
+        if abs(fa - fb) <= BAND * max(1.0, abs(fa), abs(fb)):
+            raise Fragile()
+        return False
     # at least one side is an inexact float: the library folds constants with exact float
     # comparisons, so anything closer than the noise band (but not identical) is not judged
     fa, fb = _f(a), _f(b)
@@ -246,7 +297,7 @@ def _float_fun(f, dom=None):
         if dom is not None and not dom(x):
             raise Undef('domain error')
         try:
-            return check_big(f(x))
+            return keep_noise(v, check_big(f(x)))
         except (ValueError, OverflowError):
             raise Undef('domain error')
     return g
@@ -320,7 +371,7 @@ def fn_sqrt(v):
         rn, rd = math.isqrt(n), math.isqrt(d)
         if rn * rn == n and rd * rd == d:
             return Fraction(rn, rd)
-    return math.sqrt(_f(v))
+    return keep_noise(v, math.sqrt(_f(v)))
 
 
 def fn_gcd(vals):
@@ -628,6 +679,8 @@ def ev_call(node, env, reading):
         acc = Fraction(0) if name == 'sum' else Fraction(1)
         for e in elems:
             acc = arith('+' if name == 'sum' else '*', acc, _need_num(e))
+        if len(elems) >= 3 and isinstance(acc, float):
+            acc = Noisy(acc)  # float addition and multiplication do not associate
         return acc
     if name in ('max', 'min', 'gcd'):
         if len(args) == 1 and isinstance(args[0], tuple) and args[0] and args[0][0] in ('set', 'array', 'range'):
@@ -645,7 +698,8 @@ def ev_call(node, env, reading):
         y, x = _need_num(args[0]), _need_num(args[1])
         if num_eq(x, 0) and num_eq(y, 0):
             raise Unspecified('atan2(0, 0)')
-        return check_big(math.atan2(_f(y), _f(x)))
+        r = check_big(math.atan2(_f(y), _f(x)))
+        return Noisy(r) if isinstance(y, Noisy) or isinstance(x, Noisy) else r
     if name in FUN1:
         if len(args) != 1:
             raise Unspecified(name)
@@ -702,3 +756,112 @@ def _sv(x, y):
         return same_value(x, y)
     except Unspecified:
         return False
+
+
+###############################################################################
+# Exact constants
+#
+# A reference-free expression built from number literals, arithmetic operators, comparisons,
+# connectives and single-valued mathematical functions denotes one machine number (or one
+# truth value): the result of evaluating the tree bottom-up, operands before operators, in the
+# arithmetic HPL numbers live in (Python int / IEEE double). There is nothing to tolerate
+# there - no operand order to choose, no set to iterate - so a simplified constant must be
+# that number, to the last bit. Anything else (sets, quantifiers, log, max/min, gcd, sum, prod,
+# non-finite intermediates, raising operators) is left to the tolerant evaluator above.
+###############################################################################
+
+
+class NotExact(Exception):
+    pass
+
+
+_EXACT_FUNS = {
+    'abs': abs, 'sqrt': math.sqrt, 'floor': math.floor, 'ceil': math.ceil, 'sin': math.sin, 'cos': math.cos,
+    'tan': math.tan, 'asin': math.asin, 'acos': math.acos, 'atan': math.atan, 'atan2': math.atan2,
+    'deg': math.degrees, 'rad': math.radians, 'int': int, 'float': float,
+}
+
+
+def _exact_num(v):
+    if isinstance(v, bool) or not isinstance(v, (int, float)):
+        raise NotExact()
+    if isinstance(v, float) and (math.isnan(v) or math.isinf(v)):
+        raise NotExact()
+    if isinstance(v, int) and abs(v) > 1 << 200:
+        raise NotExact()
+    return v
+
+
+def _exact(node):
+    cls = type(node).__name__
+    if cls == 'HplLiteral':
+        v = node.value
+        if isinstance(v, bool):
+            return v
+        return _exact_num(v)
+    if cls == 'HplUnaryOperator':
+        tok = node.operator.token
+        v = _exact(node.operand)
+        if tok == 'not':
+            if not isinstance(v, bool):
+                raise NotExact()
+            return not v
+        if tok == '-':
+            return _exact_num(-_exact_num(v))
+        raise NotExact()
+    if cls == 'HplBinaryOperator':
+        tok = node.operator.token
+        a = _exact(node.operand1)
+        b = _exact(node.operand2)
+        if tok in ('and', 'or', 'implies', 'iff'):
+            if not (isinstance(a, bool) and isinstance(b, bool)):
+                raise NotExact()
+            return {'and': a and b, 'or': a or b, 'implies': (not a) or b, 'iff': a == b}[tok]
+        a, b = _exact_num(a), _exact_num(b)
+        if tok == '+':
+            return _exact_num(a + b)
+        if tok == '-':
+            return _exact_num(a - b)
+        if tok == '*':
+            return _exact_num(a * b)
+        if tok == '/':
+            if b == 0:
+                raise NotExact()
+            return _exact_num(a / b)
+        if tok == '**':
+            if isinstance(b, int) and abs(b) > 64 or isinstance(b, float) and abs(b) > 64:
+                raise NotExact()
+            if a == 0 and b < 0:
+                raise NotExact()
+            return _exact_num(a ** b)
+        if tok == '=':
+            return a == b
+        if tok == '!=':
+            return a != b
+        if tok == '<':
+            return a < b
+        if tok == '<=':
+            return a <= b
+        if tok == '>':
+            return a > b
+        if tok == '>=':
+            return a >= b
+        raise NotExact()
+    if cls == 'HplFunctionCall':
+        f = _EXACT_FUNS.get(node.function.name)
+        if f is None:
+            raise NotExact()
+        args = [_exact_num(_exact(a)) for a in node.arguments]
+        return _exact_num(f(*args))
+    raise NotExact()
+
+
+def exact_constant(node):
+    """('exact', value) when the expression denotes one exactly determined number or truth value,
+    else None."""
+    try:
+        return ('exact', _exact(node))
+    except NotExact:
+        return None
+    except (ArithmeticError, ValueError, TypeError, RecursionError):
+        return None
